@@ -11,10 +11,9 @@ CHM file handle `self->d->infh` (`Src Rd`), its output goes through `chmd_sys_wr
 every byte into `self->d->offset` and passes it on only while `self->d->outfh` is set.
 
 Defects of the C that follow from mirroring it (not "fixed" here):
-* `chmd_init_decomp` ends with `return self->error`, and `self->error` may still hold the error of
-  a *tolerated* failure (e.g. the reset table could not be read and SpanInfo was used instead):
-  the extract then fails with that stale code although the decoder was set up, and the same
-  call repeated succeeds (the decoder is reused).
+* (repaired in the C, D27: `chmd_init_decomp` used to end with `return self->error` while `self->error` could still
+  hold the error of a *tolerated* reset-table failure; the extract then failed with that stale code although the
+  decoder was set up, and the same call repeated succeeded.)
 * a member whose offset equals the padded stream length, with a reset-table entry for it, gives
   `lzxd_init` the remaining length 0, which means "unknown": extract can return OK having
   written fewer bytes than declared.
@@ -269,7 +268,8 @@ def initDecomp (files : Files) (fill : UInt8) (x : X) (fileOffset : Int) : Excep
     if riFrames < 0 ∨ remaining < 0 then none
     else Lzx.init (⟨[], 0⟩ : Rd) wbits riFrames.toNat 4096 remaining.toNat false fill
   let x := { x with d := { x.d with inoffset := inoffset, offset := doffset, length := length, state := state } }
-  let x := if state.isNone then { x with error := .nomemory } else x
+  -- `self->error = state ? OK : NOMEMORY` (since the D27 repair: a tolerated reset-table failure is not reported)
+  let x := if state.isNone then { x with error := .nomemory } else { x with error := .ok }
   .ok (x.error, x)
 
 /-- the section-0 copy loop: `length` bytes in runs of at most 512 (`unsigned char buf[512]`);
